@@ -272,9 +272,9 @@ func init() {
 					}
 				}
 			}},
-		"fmt.Println": {reason: "fmt.Println writes one text line to stdout (ghost counter stdoutText)", apply: applyStdoutText, writes: writesStdoutText},
-		"fmt.Printf":  {reason: "fmt.Printf writes text to stdout (ghost counter stdoutText)", apply: applyStdoutText, writes: writesStdoutText},
-		"fmt.Print":   {reason: "fmt.Print writes text to stdout (ghost counter stdoutText)", apply: applyStdoutText, writes: writesStdoutText},
+		"fmt.Println":  {reason: "fmt.Println writes one text line to stdout (ghost counter stdoutText)", apply: applyStdoutText, writes: writesStdoutText},
+		"fmt.Printf":   {reason: "fmt.Printf writes text to stdout (ghost counter stdoutText)", apply: applyStdoutText, writes: writesStdoutText},
+		"fmt.Print":    {reason: "fmt.Print writes text to stdout (ghost counter stdoutText)", apply: applyStdoutText, writes: writesStdoutText},
 		"fmt.Fprintln": {reason: "fmt.Fprintln writes text to its writer; os.Stdout bumps stdoutText, os.Stderr bumps stderrText", apply: applyFprint, writes: writesStdoutText},
 		"fmt.Fprintf":  {reason: "fmt.Fprintf writes text to its writer; os.Stdout bumps stdoutText, os.Stderr bumps stderrText", apply: applyFprint, writes: writesStdoutText},
 		"fmt.Fprint":   {reason: "fmt.Fprint writes text to its writer; os.Stdout bumps stdoutText, os.Stderr bumps stderrText", apply: applyFprint, writes: writesStdoutText},
@@ -502,15 +502,16 @@ func applySortStrings(fr *Frame, v *ssa.Call, cc *ssa.CallCommon, a []Term, at T
 	c.n++
 	i, j := fmt.Sprintf("si!%d", c.n), fmt.Sprintf("sj!%d", c.n)
 	c.assume(at, mkQuant("forall", []Term{{i, SInt}, {j, SInt}},
-		fmt.Sprintf("(=> (and (<= 0 %s) (< %s %s) (< %s %s)) (<= (select %s (+ %s %s)) (select %s (+ %s %s))))", i, i, j, j, slLen(s).S, newInner.S, slOff(s).S, i, newInner.S, slOff(s).S, j),
-		[]string{fmt.Sprintf(":pattern ((select %s (+ %s %s)) (select %s (+ %s %s)))", newInner.S, slOff(s).S, i, newInner.S, slOff(s).S, j)}))
+		fmt.Sprintf("(=> (and (<= 0 %s) (< %s %s) (< %s %s)) (<= (select %s (idx %s %s)) (select %s (idx %s %s))))", i, i, j, j, slLen(s).S, newInner.S, slOff(s).S, i, newInner.S, slOff(s).S, j),
+		[]string{fmt.Sprintf(":pattern ((select %s (idx %s %s)) (select %s (idx %s %s)))", newInner.S, slOff(s).S, i, newInner.S, slOff(s).S, j)}))
 	// the nil slice has no backing array to change
 	c.set(st, heap, Ite(Eq(slArr(s), IntLit(0)), h, Store(h, slArr(s), newInner)))
 	return nil
 }
 
 // applySortSlice: the comparator must be a closure with a contract of the shape
-//   ensures [less] ret <==> E(i, j)
+//
+//	ensures [less] ret <==> E(i, j)
 func applySortSlice(fr *Frame, v *ssa.Call, cc *ssa.CallCommon, a []Term, at Term, st *State) []Term {
 	c := fr.c
 	mi, ok := cc.Args[0].(*ssa.MakeInterface)
@@ -591,7 +592,7 @@ func applySortSlice(fr *Frame, v *ssa.Call, cc *ssa.CallCommon, a []Term, at Ter
 	i, j := Term{fmt.Sprintf("si!%d", c.n), SInt}, Term{fmt.Sprintf("sj!%d", c.n), SInt}
 	// sort.Slice requires the captured slice variable to be the sorted slice: less reads the post state
 	if lt, ok := evalLess(st, j, i); ok {
-		pat := fmt.Sprintf(":pattern ((select %s (+ %s %s)) (select %s (+ %s %s)))", newInner.S, slOff(s).S, i.S, newInner.S, slOff(s).S, j.S)
+		pat := fmt.Sprintf(":pattern ((select %s (idx %s %s)) (select %s (idx %s %s)))", newInner.S, slOff(s).S, i.S, newInner.S, slOff(s).S, j.S)
 		c.assume(at, mkQuant("forall", []Term{i, j}, fmt.Sprintf("(=> (and (<= 0 %s) (< %s %s) (< %s %s)) (not %s))", i.S, i.S, j.S, j.S, slLen(s).S, lt.S), []string{pat}))
 	}
 	// determinism side condition (strict weak order that is total on distinct positions) is a separate,
